@@ -86,3 +86,57 @@ def value_to_py(model, v):
     if isinstance(v, ObjRef):
         return f"<{v.shape}>"
     return str(v)
+
+
+# ---------------------------------------------------------------------------- Python value -> constant term (witness pre-states)
+_atoms: dict = {}
+
+
+def atom_const(ty, name):
+    key = (ty.name, name)
+    if key not in _atoms:
+        _atoms[key] = z3.Const(f"w_{ty.name}_{name}", ty.sort())
+    return _atoms[key]
+
+
+def atoms_distinct():
+    by = {}
+    for (tn, _n), c in _atoms.items():
+        by.setdefault(tn, []).append(c)
+    return [z3.Distinct(*cs) for cs in by.values() if len(cs) > 1]
+
+
+def from_py(value, ty: Ty):
+    from .types import DATETIME
+    if ty == BOOL:
+        return z3.BoolVal(bool(value))
+    if ty == INT:
+        return z3.IntVal(int(value))
+    if ty in (REAL, DATETIME):
+        return z3.RealVal(repr(float(value)))
+    if ty == STR:
+        return z3.StringVal(value)
+    if isinstance(ty, Atom):
+        return atom_const(ty, str(value))
+    if isinstance(ty, Enum):
+        return ty.const(value)
+    if isinstance(ty, Opt):
+        return ty.none() if value is None else ty.some(from_py(value, ty.inner))
+    if isinstance(ty, Record):
+        return ty.make(*[from_py(value[f], fty) for f, fty in ty.fields])
+    if isinstance(ty, SetT):
+        t = ty.empty()
+        for e in value:
+            t = z3.Store(t, from_py(e, ty.elem), True)
+        return t
+    if isinstance(ty, MapT):
+        t = ty.empty()
+        for k, v in value.items():
+            t = z3.Store(t, from_py(k, ty.key), ty.opt.some(from_py(v, ty.val)))
+        return t
+    if isinstance(ty, SeqT):
+        t = ty.empty()
+        for e in value:
+            t = z3.Concat(t, z3.Unit(from_py(e, ty.elem)))
+        return t
+    raise ValueError(f"from_py: {ty}")
